@@ -16,7 +16,7 @@ ItemOk(mode, e, g) ==
                         /\ \A k \in 1..Len(e.fields) : e.fields[k].val = g.fields[k].val
     [] mode = "write" -> e.d = g.d /\ e.ctx = g.ctx
 ObsOk(s, obs) ==
-  LET exp == Expected(s) IN
+  \E exp \in {Expected(s)} :       \* evaluated once
   /\ obs.ok = exp.ok
   /\ ~exp.ok => obs.exc = exp.exc
   \* the order of the objects of one file is not documented (LogOkRead compares the bags); what was yielded before
@@ -30,7 +30,10 @@ RecOk(r) == ObsOk(r.sc, r.obs) /\ LogOk(r.sc, FixLog(r.log))
 Idle == /\ sc = 0 /\ proto = 0 /\ i = 0 /\ open = 0 /\ opened = 0 /\ closed = 0 /\ yielded = 0 /\ fills = 0 /\ enabled = 0
         /\ written = 0
 TInit == n = 1 /\ Idle
-TNext == n <= Len(Trace) /\ RecOk(Trace[n]) /\ n' = n + 1 /\ UNCHANGED vars
+\* IF: the judgement is evaluated as a value (as a conjunct of the action every witness of its existential
+\* quantifiers would become a successor state of its own)
+TNext == /\ n <= Len(Trace)
+         /\ IF RecOk(Trace[n]) THEN n' = n + 1 /\ UNCHANGED vars ELSE FALSE
 TSpec == TInit /\ [][TNext]_<<n, vars>>
 Accepted == /\ PrintT(<<"ACCEPTED", TLCGet("stats").diameter - 1>>)
             /\ TLCGet("stats").diameter - 1 = Len(Trace)
